@@ -92,8 +92,7 @@ def sim_flow(ctx: Ctx):
         a1 = pk[2][1] if len(pk[2]) > 1 else kw(pk, "repeats")
         if callee_name(pk) == "jax.numpy.full":
             a0, a1 = (pk[2][1] if len(pk[2]) > 1 else kw(pk, "fill_value")), pk[2][0]
-        n_agents = fr.env.get("n_initial_states")
-        okp = a0 is not None and affine(a0, lv) == (1, 0) and (a1 == n_agents or _is_len_of_states(a1))
+        okp = a0 is not None and affine(a0, lv) == (1, 0) and a1 is not None and _is_len_of_states(a1)
     ctx.ob("FLOW:next-state-period", okp, prog.where(ns),
            "_period passed to the transition functions is the current period, one entry per agent" if okp else
            f"_period passed to next_state is {show(pk)[:80] if pk else 'missing'} (required: the loop's period, per agent)",
@@ -214,7 +213,7 @@ def sim_flow(ctx: Ctx):
     else:
         ctx.undecided("FLOW:targets-arguments", "_compute_targets call not found")
     r = fr.ret
-    ok = callee_name(r) == "lcm.simulate._as_data_frame" and kw(r, "n_periods") == fr.env.get("n_periods")
+    ok = callee_name(r) == "lcm.simulate._as_data_frame" and lp.iter[2] and kw(r, "n_periods") == lp.iter[2][0]
     ctx.ob("FLOW:frame", ok, prog.where(r), "the processed panel is converted with the loop's number of periods"
            if ok else "result is not _as_data_frame(processed, n_periods=n_periods)", lhs=show(r)[:200])
     proc = [s for s in walk(r) if callee_name(s) == "lcm.simulate._process_simulated_data"]
@@ -224,7 +223,8 @@ def sim_flow(ctx: Ctx):
 
 
 def _is_len_of_states(t):
-    return callee_name(t) == "builtins.len"
+    """len(<first array of initial_states>)"""
+    return callee_name(t) == "builtins.len" and any(x == ("param", SIM, "initial_states") or (x[0] == "carried" and x[1].startswith(SIM)) for x in walk(t))
 
 
 # ======================================================================================
@@ -324,7 +324,11 @@ def key_rules(ctx: Ctx):
     # KEY5: keys are generated for every stochastic next function that is sampled
     ids = kw(gen, "ids") if gen is not None else None
     nfr = prog.frame("lcm.next_state._get_next_state_function_simulation")
-    st = nfr.env.get("stochastic_targets")
+    st = None
+    for t_ in list(nfr.env.values()) + [nfr.ret]:
+        for s_ in walk(t_):
+            if s_[0] == "comp" and s_[1] == "dict" and callee_name(s_[2][1]) == "lcm.next_state._get_stochastic_next_func":
+                st = s_[3][0][1]
     if ids is not None and st is not None and selections(ids) and selections(st):
         fi, _ = effective_formula(selections(ids)[0], {})
         fs, _ = effective_formula(selections(st)[0], {})
@@ -353,8 +357,9 @@ def data_space_layout(ctx: Ctx):
     q = DSC
     states = ("param", q, "states")
     loops = [lp for lid, lp in prog.loops.items() if lp.func == q and "@" not in lid]
-    n_states = fr.env.get("n_states")
-    ok_n = n_states == ("call", ("glob", "builtins.len"), (("call", ("glob", "builtins.next"), (("call", ("glob", "builtins.iter"), (("call", ("attr", states, "values"), (), ()),), ()),), ()),), ())
+    len_first = ("call", ("glob", "builtins.len"), (("call", ("glob", "builtins.next"), (("call", ("glob", "builtins.iter"), (("call", ("attr", states, "values"), (), ()),), ()),), ()),), ())
+    n_states = len_first if any(s_ == len_first for t_ in frame_terms(fr) + loop_terms(prog, fr) for s_ in walk(t_)) else None
+    ok_n = n_states is not None
     ctx.ob("LAY1:n-agents", ok_n, prog.where(n_states) if n_states else "",
            "the number of agents is the length of a state array" if ok_n else "n_states is not len(first state array)",
            lhs=n_states or "missing")
